@@ -2,7 +2,17 @@
 //! their dynamic parts, a few fixed components (compared only, not modelled), and the driver
 //! that runs every generated template under `catch_unwind` and prints
 //! `(id variant (byte …))`, one line per rendered variant.
+//!
+//! Variants: 0 = `view!` as written, 1 = forced-dynamic twin, 2 = `template!`, 3 = `include_view!`
+//! of the same tokens.  Every variant is also rendered through the two streaming exits of
+//! `RenderHtml` (`to_html_stream_in_order`, `to_html_stream_out_of_order`: the second
+//! implementation of element rendering, `to_html_async_with_buf`); their output is printed as
+//! variant 10+v / 20+v only when it differs from `to_html()` (it never should for templates
+//! without asynchronous parts).  `C18_VARIANT_OFFSET` (the `--cfg erase_components` build) is
+//! added to every printed variant number.
+use futures::StreamExt;
 use leptos::prelude::*;
+use std::sync::Arc;
 
 /// `{s("…")}`: a block / attribute value that evaluates to a `String`
 pub fn s(x: &str) -> String {
@@ -22,6 +32,37 @@ pub fn so(x: &str) -> Option<String> {
 pub fn no() -> Option<String> {
     None
 }
+/// other representations of a dynamic string / scalar value
+pub fn sr(x: &'static str) -> &'static str {
+    x
+}
+pub fn arc(x: &str) -> Arc<str> {
+    Arc::from(x)
+}
+pub fn oco(x: &'static str) -> Oco<'static, str> {
+    Oco::Borrowed(x)
+}
+pub fn ocoo(x: &str) -> Oco<'static, str> {
+    Oco::Owned(x.to_string())
+}
+pub fn ococ(x: &str) -> Oco<'static, str> {
+    Oco::Counted(Arc::from(x))
+}
+pub fn n(x: i32) -> i32 {
+    x
+}
+pub fn fl(x: f64) -> f64 {
+    x
+}
+pub fn ch(x: char) -> char {
+    x
+}
+/// `use:noop`: a directive without parameter (renders nothing)
+pub fn noop(_el: leptos::tachys::renderer::types::Element) {}
+/// `use:withp="…"`: a directive with a parameter (renders nothing)
+pub fn withp(_el: leptos::tachys::renderer::types::Element, _p: &'static str) {}
+/// `view! { class = GC, … }`: a scope class that is not a literal
+pub const GC: &str = "g<\"c";
 
 /// `<Wrap>children</Wrap>` renders `<section class="w">children</section>`
 #[component]
@@ -52,18 +93,106 @@ pub fn Label(#[prop(into)] text: String) -> impl IntoView {
     view! { <label>{text}</label> }
 }
 
+/// `ChildrenFragment`: `<Frag>a b c</Frag>` renders `<ol><li>a</li><li>b</li><li>c</li></ol>`, one item
+/// per top-level child node
+#[component]
+pub fn Frag(children: ChildrenFragment) -> impl IntoView {
+    view! { <ol>{children().nodes.into_iter().map(|c| view! { <li>{c}</li> }).collect::<Vec<_>>()}</ol> }
+}
+
+/// `TypedChildren`: `<Typed>children</Typed>` renders `<article>children</article>`
+#[component]
+pub fn Typed<C: IntoView + 'static>(children: TypedChildren<C>) -> impl IntoView {
+    view! { <article>{children.into_inner()()}</article> }
+}
+
+/// optional / defaulted props and optional children:
+/// `<Opt a=.. b=.. n=..>children</Opt>` renders `<i data-a=a? data-b=b data-n=n>children</i>`
+#[component]
+pub fn Opt(
+    #[prop(optional)] a: Option<String>,
+    #[prop(optional, into)] b: String,
+    #[prop(default = 7)] n: i32,
+    #[prop(optional)] children: Option<Children>,
+) -> impl IntoView {
+    view! { <i data-a=a data-b=b data-n=n.to_string()>{children.map(|c| c())}</i> }
+}
+
+/// a generic component: `<Gen<i32> v=3/>` / `<Gen v="x"/>` renders `<u>v</u>`
+#[component]
+pub fn Gen<T: std::fmt::Display + Send + 'static>(v: T) -> impl IntoView {
+    view! { <u>{v.to_string()}</u> }
+}
+
+/// a slot with a prop and optional children, used several times: `<Tabs><Tab slot name="a">x</Tab>…</Tabs>`
+/// renders `<nav><span data-name="a">x</span>…</nav>`
+#[slot]
+pub struct Tab {
+    #[prop(into)]
+    name: String,
+    #[prop(optional)]
+    children: Option<ChildrenFn>,
+}
+#[component]
+pub fn Tabs(tab: Vec<Tab>) -> impl IntoView {
+    view! {
+        <nav>
+            {tab.into_iter().map(|t| view! { <span data-name=t.name>{t.children.map(|c| c())}</span> }).collect::<Vec<_>>()}
+        </nav>
+    }
+}
+
+/// children taking an argument (`let:item`): `<Each items=vec![..] let:item>T(item)</Each>` renders
+/// `<ul>T(i1) T(i2) …</ul>`
+#[component]
+pub fn Each<F, V>(items: Vec<String>, children: F) -> impl IntoView
+where
+    F: Fn(String) -> V + Send + 'static,
+    V: IntoView + 'static,
+{
+    view! { <ul>{items.into_iter().map(|i| children(i)).collect::<Vec<_>>()}</ul> }
+}
+
 pub type Out = Vec<(u32, u8, String)>;
+
+/// renders one variant of one template through every exit
+pub fn render<V, F>(out: &mut Out, id: u32, variant: u8, f: F)
+where
+    F: Fn() -> V,
+    V: RenderHtml,
+{
+    let html = f().to_html();
+    let in_order = futures::executor::block_on(f().to_html_stream_in_order().collect::<String>());
+    if in_order != html {
+        out.push((id, 10 + variant, in_order));
+    }
+    let ooo = futures::executor::block_on(f().to_html_stream_out_of_order().collect::<String>());
+    if ooo != html {
+        out.push((id, 20 + variant, ooo));
+    }
+    out.push((id, variant, html));
+}
+
+/// `to_html()` only
+pub fn render1<V, F>(out: &mut Out, id: u32, variant: u8, f: F)
+where
+    F: Fn() -> V,
+    V: RenderHtml,
+{
+    out.push((id, variant, f().to_html()));
+}
 
 pub fn drive(fns: &[(u32, fn(&mut Out))]) {
     use std::io::Write;
     std::panic::set_hook(Box::new(|_| {}));
+    let offset: u32 = std::env::var("C18_VARIANT_OFFSET").ok().and_then(|x| x.parse().ok()).unwrap_or(0);
     let stdout = std::io::stdout();
     let mut w = std::io::BufWriter::new(stdout.lock());
     for (id, f) in fns {
         let mut out = Out::new();
         let r = std::panic::catch_unwind(std::panic::AssertUnwindSafe(|| f(&mut out)));
         for (id, variant, html) in &out {
-            writeln!(w, "({} {} {})", id, variant, vsexp::Sexp::from_str(html)).unwrap();
+            writeln!(w, "({} {} {})", id, *variant as u32 + offset, vsexp::Sexp::from_str(html)).unwrap();
         }
         if let Err(e) = r {
             let msg = e
